@@ -373,6 +373,8 @@ pub fn run(ctx: &Ctx) {
 
     super::regressions::run(ctx, "C14", |j| replay(j));
 
+    super::c14_tokens::run(ctx);
+
     let n = ctx.tier.pick(60_000u64, 1_500_000u64);
     ctx.random(
         "line-scripts",
@@ -403,6 +405,9 @@ pub fn run(ctx: &Ctx) {
 }
 
 pub fn replay(j: &serde_json::Value) -> Option<Verdict> {
+    if j.get("rule_tokens").is_some() {
+        return super::c14_tokens::replay(j);
+    }
     let bytes: Vec<u8> = j.get("script_bytes")?.as_array()?.iter().filter_map(|b| b.as_u64().map(|x| x as u8)).collect();
     Some(check(&build_script(&bytes)))
 }
